@@ -273,6 +273,11 @@ func tolBalMultiJoin(k int) *big.Float {
 }
 
 func oracleProportionalJoin(o *Out, kind string, p *gPool, cs []gCoin, used map[string]*big.Int, shares *big.Int, line string) {
+	if len(cs) > 1 && len(cs) < len(p.assets) && shares != nil && shares.Sign() > 0 {
+		// a join offering several but not all of the pool's assets has a zero ratio on the missing ones: any share
+		// minted for it is above proportional (the exit then pays out assets that were never deposited)
+		o.Fail("join:subset-of-assets-minted-shares:"+kind, line+" => shares "+shares.String())
+	}
 	if len(cs) != len(p.assets) {
 		return
 	}
